@@ -656,10 +656,12 @@ def refine_droplet(
         adjust_values = False
 
     # determine the intensities outside and inside the droplet
+    # (the extrema are converted to floats since the arithmetic below would otherwise be
+    # done in the data type of the image, which overflows for integer images)
     if vmin is None:
-        vmin = np.min(data_mask)
+        vmin = float(np.min(data_mask))
     if vmax is None:
-        vmax = np.max(data_mask)
+        vmax = float(np.max(data_mask))
     vrng = vmax - vmin
     # measure deviations in units of the intensity range, so the accuracy of the fit (which
     # is controlled by absolute tolerances) does not depend on the contrast of the image
